@@ -628,8 +628,12 @@ func fqRunPlan(plan fqPlan) (rep fqReport) {
 		}
 	}
 	// call by call: after a failed loop-side call no loop-side call at all within RetryInterval (faults5.go)
-	gapViol, _ := fqBackoffGaps(q.calls, fqRetry, plan)
-	rep.Violations = append(rep.Violations, gapViol...)
+	gapViol, _, early := fqBackoffGaps(q.calls, fqRetry, plan)
+	if early <= 2 {
+		rep.Soft = append(rep.Soft, gapViol...) // second opinion: the plan again, alone (see fqBackoffGaps)
+	} else {
+		rep.Violations = append(rep.Violations, gapViol...)
+	}
 	q.mu.Unlock()
 	// the same judgment for every loop-side operation: since the repair of finding F4 (known_findings.txt, "size-head-retried-per-interrupt")
 	// a failing Size() / Head() sets the back-off deadline like a failing Pop() / Push(), and the deadline is tested before Size() is asked
